@@ -499,7 +499,12 @@ impl<'a> Value<'a> {
 
     /// Compares two values for sorting, treating NULL as less than any non-NULL value.
     pub fn compare_for_sort(&self, other: &Value) -> Ordering {
-        self.compare(other).unwrap_or(Ordering::Equal)
+        match (self, other) {
+            (Value::Null, Value::Null) => Ordering::Equal,
+            (Value::Null, _) => Ordering::Less,
+            (_, Value::Null) => Ordering::Greater,
+            _ => self.compare(other).unwrap_or(Ordering::Equal),
+        }
     }
 
     /// Clones this value into an arena allocator with the arena's lifetime.
